@@ -105,7 +105,7 @@ pub fn run(accept: &[&str], report: &mut Report) {
     // Only epochs with a journal-area write in flight are enumerated in full; the
     // 520-block data epoch is covered by its prefixes and single/co-single subsets (cap).
     let seen: Mutex<HashSet<u128>> = Mutex::new(HashSet::new());
-    let opts = CrashOpts { sector_tear: false, reopen_cycles: 0, nest: 0, now: T0, probe_auto_ts: false };
+    let opts = CrashOpts { sector_tear: false, reopen_cycles: 0, nest: 0, now: T0, probe_auto_ts: false, continue_after: false };
     let mut findings_all = Vec::new();
     let mut images = 0u64;
     let mut recoveries = 0u64;
